@@ -34,6 +34,25 @@ const crypkiPkg = "crypki"
 
 // isForwardRangeIndex: idx is the rangeindex idiom phi(-1, idx)+1 (a forward range from 0).
 func isForwardRangeIndex(idx ssa.Value) bool {
+	// hand-written form: for i := 0; ...; i++  (the index is the loop variable itself, started at 0 and only ever
+	// incremented by one)
+	if phi, ok := idx.(*ssa.Phi); ok && len(phi.Edges) >= 2 {
+		sawInit, sawInc := false, false
+		for _, e := range phi.Edges {
+			if k, isK := intConst(e); isK && k == 0 {
+				sawInit = true
+			} else if b, isB := e.(*ssa.BinOp); isB && b.Op == token.ADD && b.X == ssa.Value(phi) {
+				if one, isK := intConst(b.Y); isK && one == 1 {
+					sawInc = true
+					continue
+				}
+				return false
+			} else {
+				return false
+			}
+		}
+		return sawInit && sawInc
+	}
 	bin, ok := idx.(*ssa.BinOp)
 	if !ok || bin.Op != token.ADD {
 		return false
@@ -322,7 +341,14 @@ func runC17(c *Ctx) {
 	if ns := w.Func(crypkiPkg, "NewSigner"); ns != nil {
 		c.Saw(ns)
 		okCtor := false
-		for _, b := range ns.Blocks {
+		w.Focus(ns)
+		var ctorBlocks []*ssa.BasicBlock
+		for _, tf := range w.Tree(ns) {
+			if tf == ns || w.transparent(tf) {
+				ctorBlocks = append(ctorBlocks, tf.Blocks...)
+			}
+		}
+		for _, b := range ctorBlocks {
 			for _, ins := range b.Instrs {
 				st, ok := ins.(*ssa.Store)
 				if !ok {
